@@ -621,6 +621,184 @@ fn crowd_leg(acc: &mut Acc, n: usize) {
     }
 }
 
+
+/// a user function that stays pending until its gate is opened (it wakes its task on every poll,
+/// as a function waiting on a busy backend polled by a simple executor does)
+struct GateFn {
+    gate: Arc<std::sync::atomic::AtomicBool>,
+    entered: Arc<std::sync::atomic::AtomicUsize>,
+}
+struct WaitForGate(Arc<std::sync::atomic::AtomicBool>);
+impl Future for WaitForGate {
+    type Output = ();
+    fn poll(self: Pin<&mut Self>, cx: &mut std::task::Context<'_>) -> Poll<()> {
+        if self.0.load(Ordering::SeqCst) {
+            Poll::Ready(())
+        } else {
+            cx.waker().wake_by_ref();
+            Poll::Pending
+        }
+    }
+}
+#[async_trait::async_trait]
+impl UserFunction for GateFn {
+    async fn call(&self, p: Value) -> FunctionResult {
+        self.entered.fetch_add(1, Ordering::SeqCst);
+        WaitForGate(self.gate.clone()).await;
+        match p {
+            Value::Int(i) => Ok(Value::Int(i * 2)),
+            other => Ok(other),
+        }
+    }
+    fn name(&self) -> &'static str {
+        "g"
+    }
+    fn cacheable(&self) -> bool {
+        false
+    }
+}
+
+/// Very many evaluations of one ruleset in flight at once, all waiting inside a user function;
+/// some of them are then abandoned (the last ones started and every 13th), the backend answers,
+/// the rest run to completion, and fresh evaluations are made afterwards.  Every evaluation that
+/// was not abandoned returns what it returns alone, and every fresh one completes.  Sizes straddle
+/// the powers of two a bounded pool or counter would be sized with.
+pub fn gate_crowd_leg(acc: &mut Acc, n: usize, prop: &str) {
+    use std::sync::atomic::{AtomicBool, AtomicUsize};
+    let gate = Arc::new(AtomicBool::new(false));
+    let entered = Arc::new(AtomicUsize::new(0));
+    let rs = match ruleset()
+        .with_rule(Rule::new("doubled", BTreeMap::new(), Expr::func("g", Expr::reff("id"))))
+        .and_then(|b| b.with_rule(Rule::new("plain", BTreeMap::new(), Expr::add(Expr::reff("id"), Expr::value(1i128)))))
+        .and_then(|b| b.with_function(GateFn { gate: gate.clone(), entered: entered.clone() }))
+    {
+        Ok(b) => b.build(),
+        Err(e) => return acc.machinery(format!("gate crowd: {e}")),
+    };
+    let facts: Vec<Value> = (0..n + 8).map(|i| Value::Map([("id".to_string(), Value::Int(i as i128))].into_iter().collect())).collect();
+    let want = |i: usize| vec![format!("doubled=Ok(Int({}))", 2 * i), format!("plain=Ok(Int({}))", i + 1)];
+    let show = |o: reval::Result<Vec<reval::ruleset::Outcome<'_>>>| -> Vec<String> {
+        match o {
+            Ok(out) => out.iter().map(|x| format!("{}={:?}", x.rule.name(), x.value.as_ref().map_err(|e| e.to_string()))).collect(),
+            Err(e) => vec![format!("evaluation failed: {e}")],
+        }
+    };
+    let case = json!({"kind": "gate-crowd", "n": n, "property": prop});
+    let wc = Arc::new(WakeCount::default());
+    let mut futs: Vec<Option<EvalFut>> = facts[..n].iter().map(|f| Some(Box::pin(rs.evaluate_value(f)) as EvalFut)).collect();
+    let mut results: Vec<Option<Vec<String>>> = (0..n).map(|_| None).collect();
+    let mut panicked: Option<String> = None;
+    // phase 1: start them all (two polls each): every one is now waiting inside `g`, or wherever the
+    // library makes it wait
+    for _ in 0..2 {
+        for t in 0..n {
+            if let Some(f) = futs[t].as_mut() {
+                match catch(|| poll_once(f.as_mut(), &wc)) {
+                    Ok(Poll::Ready(o)) => {
+                        results[t] = Some(show(o));
+                        futs[t] = None;
+                    }
+                    Ok(Poll::Pending) => {}
+                    Err(p) => {
+                        panicked = Some(p);
+                        futs[t] = None;
+                    }
+                }
+            }
+        }
+    }
+    let waiting_inside = entered.load(Ordering::SeqCst);
+    // phase 2: abandon the 7 % started last and every 13th of the others
+    let mut abandoned = vec![false; n];
+    for t in 0..n {
+        if t >= n - n / 14 || t % 13 == 5 {
+            abandoned[t] = true;
+            futs[t] = None;
+        }
+    }
+    // phase 3: the backend answers; everything left runs to completion
+    gate.store(true, Ordering::SeqCst);
+    for _round in 0..64 {
+        if futs.iter().all(|f| f.is_none()) {
+            break;
+        }
+        for t in 0..n {
+            if let Some(f) = futs[t].as_mut() {
+                match catch(|| poll_once(f.as_mut(), &wc)) {
+                    Ok(Poll::Ready(o)) => {
+                        results[t] = Some(show(o));
+                        futs[t] = None;
+                    }
+                    Ok(Poll::Pending) => {}
+                    Err(p) => {
+                        panicked = Some(p);
+                        futs[t] = None;
+                    }
+                }
+            }
+        }
+    }
+    acc.count("executions", n as u64);
+    let stuck = futs.iter().filter(|f| f.is_some()).count();
+    drop(futs);
+    if let Some(p) = panicked {
+        acc.violation(Violation { sig: "gate-crowd/panic".into(), what: format!("{n} evaluations in flight: panicked: {p}"), case: case.clone(), size: n });
+    }
+    if stuck > 0 {
+        acc.violation(Violation {
+            sig: "gate-crowd/stuck".into(),
+            what: format!("{n} evaluations of one ruleset in flight ({waiting_inside} calls had reached the user function), {} abandoned, then the function answers: {stuck} of the remaining evaluations are still pending after 64 more polls each", abandoned.iter().filter(|a| **a).count()),
+            case: case.clone(),
+            size: n,
+        });
+    }
+    if let Some(t) = (0..n).find(|t| !abandoned[*t] && results[*t].is_some() && results[*t].as_ref() != Some(&want(*t))) {
+        acc.violation(Violation {
+            sig: "gate-crowd/outcome".into(),
+            what: format!("{n} evaluations of one ruleset in flight: evaluation {t} returned {:?}, alone it returns {:?}", results[t], want(t)),
+            case: case.clone(),
+            size: n,
+        });
+    }
+    // phase 4: fresh evaluations afterwards
+    for k in 0..8 {
+        let i = n + k;
+        let mut f: EvalFut = Box::pin(rs.evaluate_value(&facts[i]));
+        let mut got = None;
+        for _ in 0..10_000 {
+            match catch(|| poll_once(f.as_mut(), &wc)) {
+                Ok(Poll::Ready(o)) => {
+                    got = Some(show(o));
+                    break;
+                }
+                Ok(Poll::Pending) => {}
+                Err(p) => {
+                    got = Some(vec![format!("PANIC {p}")]);
+                    break;
+                }
+            }
+        }
+        acc.count("executions", 1);
+        if got.as_ref() != Some(&want(i)) {
+            acc.violation(Violation {
+                sig: format!("gate-crowd/afterwards/{}", if got.is_none() { "never-completes" } else { "outcome" }),
+                what: format!(
+                    "after {n} evaluations of one ruleset were in flight at once ({waiting_inside} inside the user function) and {} of them were abandoned, a fresh evaluation {}",
+                    abandoned.iter().filter(|a| **a).count(),
+                    match &got {
+                        None => "is still pending after 10000 polls although its user function answers at once".to_string(),
+                        Some(g) => format!("returns {g:?} instead of {:?}", want(i)),
+                    }
+                ),
+                case: case.clone(),
+                size: n,
+            });
+            break;
+        }
+    }
+    acc.outcome("gate-crowd");
+}
+
 /// Rule objects travel between rulesets: a rule taken from an outcome of ruleset A (or cloned
 /// before / after A was evaluated) is registered in ruleset B, whose symbols and input differ.
 /// Every chain of up to three rulesets over three symbol tables; oracle = the same rule text
@@ -986,6 +1164,11 @@ pub fn run(tier: Tier) -> i32 {
         crowd_leg(&mut acc, n);
     }
     rep.bound("crowd_sizes", crowd);
+    let gate_sizes: Vec<usize> = tier.pick(vec![300, 1100, 2100], vec![300, 1100, 2100, 4200, 8300, 16500, 33000, 66000]);
+    for &n in &gate_sizes {
+        gate_crowd_leg(&mut acc, n, "C12");
+    }
+    rep.bound("gate_crowd_sizes", format!("{gate_sizes:?} evaluations waiting inside a user function at once, 13 % abandoned, 8 fresh evaluations afterwards"));
     rule_reuse_leg(&mut acc);
     let wait = tier.pick(6u64, 65u64);
     real_time_leg(&mut acc, wait);
@@ -998,6 +1181,14 @@ pub fn run(tier: Tier) -> i32 {
     rep.extra.insert("clock_scan".into(), json!(clock));
     expr_leg(&mut acc);
     many_inputs_leg(&mut acc, tier.pick(300, 3000));
+    // history and environment (context.rs): the battery of casts over edit neighbourhoods, in
+    // order / reversed / repeated in this process, and once per child process per environment
+    {
+        let n = super::context::history_leg(&mut acc, tier == Tier::Thorough);
+        rep.bound("history_battery", format!("{n} expressions (casts of every text within two edits of canonical timestamps / numbers, case mapping, date components), three passes in one process: forward, reversed, forward"));
+        let e = super::context::environment_leg(&mut acc, tier == Tier::Thorough);
+        rep.bound("environments", format!("{e} child processes (time zones, locales, an empty environment), each evaluating the same battery"));
+    }
     rep.absorb(acc);
     rep.bound("abandonments_per_long_history", abandon_n);
     rep.states = stats.nodes;
@@ -1047,8 +1238,21 @@ pub fn replay(case: &serde_json::Value) -> i32 {
     // legs outside the scenario families: re-run the whole (deterministic) leg
     let kind = case.get("kind").and_then(|k| k.as_str()).unwrap_or("");
     let mut acc = Acc::new();
+    if let Some(a) = super::context::replay_c12(case) {
+        println!("re-ran the {kind} leg");
+        return if a.violations.is_empty() {
+            println!("verdict: holds");
+            0
+        } else {
+            for v in a.violations.values() {
+                println!("verdict: VIOLATED — {}", v.what);
+            }
+            1
+        };
+    }
     match kind {
         "crowd" => crowd_leg(&mut acc, case.get("n").and_then(|n| n.as_u64()).unwrap_or(17) as usize),
+        "gate-crowd" => gate_crowd_leg(&mut acc, case.get("n").and_then(|n| n.as_u64()).unwrap_or(1100) as usize, "C12"),
         "pile-up" => pile_up_leg(&mut acc, case.get("n").and_then(|n| n.as_u64()).unwrap_or(8) as usize),
         "rule-reuse" => rule_reuse_leg(&mut acc),
         "real-time" => real_time_leg(&mut acc, case.get("seconds").and_then(|n| n.as_u64()).unwrap_or(6)),
